@@ -127,6 +127,28 @@ Theorem C16_below_is_pruned : forall (u : store) o e rot f i, o < e -> e < W64 -
 Proof. exact complete_is_pruned. Qed.
 Print Assumptions C16_below_is_pruned.
 
+(* the same for a sweep cancelled at ANY block k of [o, e] (graceful shutdown mid-prune): the database is
+   exactly the one a complete PruneUpto(k) leaves - in particular the hash->number entry of k-1, needed by
+   StateAtBlockHash(parent of the new oldest block), is still there after the restart re-seeds the floor
+   from the database. (False for the code before the /repo fix "pruner keeps the hash->number carve-out
+   when a prune is cancelled": cancelled_loses_carveout_before_fix below.) *)
+Theorem C16_cancelled_is_pruned : forall (u : store) o e k rot f i, o <= k -> k <= e ->
+  apply_batches (pruned u o) (prune_batches o e k rot) f i = pruned u k f i.
+Proof. exact cancelled_is_pruned. Qed.
+Print Assumptions C16_cancelled_is_pruned.
+
+(* the loop body as it was before the fix, kept as the refutation witness of the registered (fixed)
+   finding: prune 10 -> 12 cancelled when block 11 is reached deleted the hash->number entry of block 10,
+   the parent of the new oldest block 11 *)
+Example cancelled_loses_carveout_before_fix :
+  let old_block_ops (e n : N) := (if n =? sub64 e 1 then [] else [DHashNum n]) ++ [DTxLook n; DHist n] in
+  let u := full_store 15 in
+  let s_old := apply_batches (pruned u 10) [[DHashNum 9] ++ old_block_ops 12 10; range_ops 11] in
+  let s_new := apply_batches (pruned u 10) (prune_batches 10 12 11 (fun _ => true)) in
+  (s_old Cm 10, s_old Cm 11, s_old H2n 10, s_new Cm 10, s_new Cm 11, s_new H2n 10, s_new H2n 9) =
+  (false, true, false, false, true, true, false).
+Proof. vm_compute. reflexivity. Qed.
+
 Theorem C16_below_nothing_answers : forall (u : store) e a n, n + LAG < e ->
   answers (pruned u e) a n = false.
 Proof. exact below_lag_nothing. Qed.
@@ -202,8 +224,8 @@ Proof. vm_compute. repeat split; reflexivity. Qed.
 
 Example batches_example :
   prune_batches 2 5 5 (fun n => n =? 3) =
-  [[DHashNum 1; DHashNum 2; DTxLook 2; DHist 2; DHashNum 3; DTxLook 3; DHist 3];
-   [DTxLook 4; DHist 4];
+  [[DHashNum 1; DTxLook 2; DHist 2; DHashNum 2; DTxLook 3; DHist 3];
+   [DHashNum 3; DTxLook 4; DHist 4];
    [RHdr 0; RCm 5; RSu 5; RTxs 5; RBloom 5]].
 Proof. vm_compute. reflexivity. Qed.
 
